@@ -1,7 +1,7 @@
 (* Correspondence verdict for C10: observed outcomes of a call history against the per-object
    specification; a disagreement that the single-global-simulation model reproduces exactly is
    tagged (known architectural finding F13: engine objects share one native simulation). *)
-From Verif Require Import Num Decode Sampling Lifecycle.
+From Verif Require Import Num Decode Sampling Lifecycle Simulate.
 Open Scope Qc_scope.
 
 Definition outcome_eqb (m o : outcome) : bool :=
@@ -41,3 +41,16 @@ Definition accept_C10_run (c : Qc * Qc * bool) (o : option (nat * bool * bool)) 
       let ok_fixed := s_complete s && Nat.eqb (s_step s) n && negb (s_complete (run_fixed dt (Nat.pred n) (sim_init NoSampling [] 1 tmax))) in
       ((if fixed then ok_fixed && complete else true) && negb moved, if fixed then 6%nat else 7%nat)
   end.
+
+(* simulate_script: the calls it makes on (proxies of) its engines over a sequence of invocations, with what they returned, against
+   the specification run of the modelled history.  Every run(1000) of these small scripts reaches completion in its first call:
+   one iterate_n of more iterations than any of them needs. *)
+Definition tag_of (c : lcall) : nat :=
+  match c with
+  | LSetup _ _ => 0 | LIterate _ => 1 | LIterateN _ _ => 2 | LRun _ => 3 | LSample _ => 4 | LProgress _ => 5 | LIsComplete _ => 6
+  | LGetOutput _ => 7 | LFinalize _ => 8
+  end%nat.
+Definition accept_C10_simulate (invs : list (obj * script * bool)) (obs : list (nat * outcome)) : verdict :=
+  let h := flat_map (fun i : obj * script * bool => let '(e, sc, pr) := i in simulate_history e sc pr [1000%nat]) invs in
+  if negb (forall2b Nat.eqb (map tag_of h) (map fst obs)) then (false, 21%nat)
+  else (forall2b outcome_eqb (spec_run world0 h) (map snd obs), 20%nat).
